@@ -22,6 +22,7 @@ import (
 	"sync"
 	"sync/atomic"
 	"time"
+	"unsafe"
 
 	"github.com/bytedance/sonic"
 	"github.com/bytedance/sonic/option"
@@ -508,6 +509,58 @@ func hPlainVal() hPlain {
 		A: [3]uint8{1, 2, 3}, E: "iface", N: "n", I8: -8, U: 1 << 63}
 }
 
+// two function-local types that both print as `main.hRec` (same layout, different JSON keys)
+func hLocA() (reflect.Type, func() interface{}, func() interface{}) {
+	type hRec struct {
+		ID   int    `json:"id"`
+		Name string `json:"name"`
+	}
+	return reflect.TypeOf(hRec{}), func() interface{} { return hRec{ID: 1, Name: "loc-a"} }, func() interface{} { return new(hRec) }
+}
+
+func hLocB() (reflect.Type, func() interface{}, func() interface{}) {
+	type hRec struct {
+		Key   int    `json:"key"`
+		Label string `json:"label"`
+	}
+	return reflect.TypeOf(hRec{}), func() interface{} { return hRec{Key: 2, Label: "loc-b"} }, func() interface{} { return new(hRec) }
+}
+
+const hLocDoc = `{"id":11,"name":"n","key":22,"label":"l"}`
+
+// typeHash reads abi.Type.Hash (offset 16 on 64-bit) of a type descriptor.
+func typeHash(t reflect.Type) uint32 {
+	p := (*[2]unsafe.Pointer)(unsafe.Pointer(&t))[1]
+	return *(*uint32)(unsafe.Pointer(uintptr(p) + 16))
+}
+
+// hCollide builds two DISTINCT struct types with the same layout and the same 32-bit runtime type hash:
+// reflect.StructOf hashes name|hash(type)|tag of consecutive fields without separators, so bytes can be
+// moved between a tag and the next field (JSON keys a,b versus a,c).  ok=false if reflect changed.
+func hCollide() (x, y reflect.Type, ok bool) {
+	it := reflect.TypeOf(int(0))
+	h := typeHash(it)
+	H := string([]byte{byte(h >> 24), byte(h >> 16), byte(h >> 8), byte(h)})
+	x = reflect.StructOf([]reflect.StructField{
+		{Name: "A", Type: it, Tag: reflect.StructTag(`json:"a"`)},
+		{Name: "B", Type: it, Tag: reflect.StructTag(`json:"b" ` + "C" + H + `json:"c"`)},
+	})
+	y = reflect.StructOf([]reflect.StructField{
+		{Name: "A", Type: it, Tag: reflect.StructTag(`json:"a"` + "B" + H + `json:"b" `)},
+		{Name: "C", Type: it, Tag: reflect.StructTag(`json:"c"`)},
+	})
+	return x, y, x != y && typeHash(x) == typeHash(y)
+}
+
+func hCollideVal(t reflect.Type, a, b int64) reflect.Value {
+	v := reflect.New(t)
+	v.Elem().Field(0).SetInt(a)
+	v.Elem().Field(1).SetInt(b)
+	return v
+}
+
+const hCollideDoc = `{"a":10,"b":20,"c":30}`
+
 type histProbe struct {
 	name string
 	run  func(std bool) string
@@ -601,6 +654,29 @@ func init() {
 		mprobe("ptrrecv.M1val", func() interface{} { return hM1{} }),
 		mprobe("ptrrecv.Uval", func() interface{} { return hU{} }),
 		mprobe("ptrrecv.Uptr", func() interface{} { return &hU{} }),
+	}
+}
+
+func init() {
+	ta, mka, newa := hLocA()
+	tb, mkb, newb := hLocB()
+	histProbes = append(histProbes,
+		mprobe("samename.loca", mka), mprobe("samename.locb", mkb),
+		uprobe("samename.loca.u", hLocDoc, newa), uprobe("samename.locb.u", hLocDoc, newb))
+	histTypeSets["sameloc"] = []reflect.Type{ta, tb}
+	histTypeSets["samelocr"] = []reflect.Type{tb, ta}
+	histTypeSets["sameall"] = []reflect.Type{ta, reflect.TypeOf(pkga.T{}), tb, reflect.TypeOf(pkgb.T{})}
+	x, y, ok := hCollide()
+	if ok {
+		histProbes = append(histProbes,
+			mprobe("collide.x", func() interface{} { return hCollideVal(x, 1, 2).Elem().Interface() }),
+			mprobe("collide.y", func() interface{} { return hCollideVal(y, 1, 2).Elem().Interface() }),
+			mprobe("collide.xptr", func() interface{} { return hCollideVal(x, 3, 4).Interface() }),
+			mprobe("collide.yptr", func() interface{} { return hCollideVal(y, 3, 4).Interface() }),
+			uprobe("collide.x.u", hCollideDoc, func() interface{} { return reflect.New(x).Interface() }),
+			uprobe("collide.y.u", hCollideDoc, func() interface{} { return reflect.New(y).Interface() }))
+		histTypeSets["collide"] = []reflect.Type{x, y}
+		histTypeSets["collider"] = []reflect.Type{y, x}
 	}
 }
 
